@@ -1071,8 +1071,12 @@ def _assign(t: T, arr):
     if t.a.dtype != object and arr.dtype == object:
         arr2 = _norm_native(arr, t.a.dtype)
         if arr2 is None:
-            raise Unmodelled("symbolic value stored in-place into a native tensor")
-        arr = arr2
+            if t.a.base is not None:
+                raise Unmodelled("symbolic value stored in-place into a view of a native tensor")
+            # the tensor owns its storage: switch it to symbolic storage (no other view can observe the difference)
+            t.a = _obj(t.a)
+        else:
+            arr = arr2
     if t.a.ndim == 0:
         t.a[()] = arr.reshape(())[()] if isinstance(arr, np.ndarray) else arr
     else:
@@ -1193,7 +1197,14 @@ def _cast(t: T, dt):
             if n is None:
                 if builtins.all(isinstance(v, Sym) and v.n.sort == E.I for v in a.flat):
                     return T(a, dt, True)
-                raise Unmodelled("cast of symbolic reals to an integer dtype")
+
+                def trunc(v):
+                    if v.n.sort == E.I:
+                        return v
+                    # truncation toward zero: floor for x >= 0, -floor(-x) otherwise
+                    return Sym(E.ite(E.ge(v.n, E.ZERO), E.fn("floor", v.n), E.neg(E.fn("floor", E.neg(v.n)))))
+
+                return T(np.asarray(np.frompyfunc(trunc, 1, 1)(a), dtype=object), dt, True)
             return T(np.trunc(n).astype(np.int64), dt, True)
         return T(a.astype(np.int64), dt, True)
     raise Unmodelled("cast to %s" % dt)
